@@ -4,6 +4,7 @@
 #include <rapidcheck.h>
 #endif
 #include <unistd.h>
+#include <cerrno>
 #include <signal.h>
 #include <sys/mman.h>
 #include <sys/stat.h>
@@ -97,7 +98,10 @@ void scratch_clean() {
 }
 void write_file(const std::string& path, const void* p, size_t n) {
 	FILE* f = fopen(path.c_str(), "wb");
-	if (!f) { fprintf(stderr, "harness: cannot write %s\n", path.c_str()); _exit(2); }
+	if (!f) {
+		if (errno == EMFILE || errno == ENFILE) fail("the harness cannot create its scratch file " + path + ": no file descriptor is left in this process - earlier calls did not give theirs back");
+		fprintf(stderr, "harness: cannot write %s\n", path.c_str()); _exit(2);
+	}
 	if (n) fwrite(p, 1, n, f);
 	fclose(f);
 }
@@ -112,9 +116,18 @@ bool read_file(const std::string& path, std::vector<uint8_t>& out) {
 }
 bool file_exists(const std::string& path) { struct stat s; return lstat(path.c_str(), &s) == 0; }
 
+// descriptors held in reserve so that a failure can still be written down when the code under test has used up (leaked) all the others
+static int g_spare_fd[6] = {-1, -1, -1, -1, -1, -1};
+static void release_spares() { for (int& fd : g_spare_fd) if (fd >= 0) { close(fd); fd = -1; } }
+static void raw_write_file(const std::string& path, const void* p, size_t n) {   // never throws, never exits
+	int fd = open(path.c_str(), O_WRONLY | O_CREAT | O_TRUNC, 0600); if (fd < 0) return;
+	const char* c = static_cast<const char*>(p); while (n) { ssize_t k = write(fd, c, n); if (k <= 0) break; c += k; n -= size_t(k); } close(fd);
+}
+
 static void dump_stats() {
 	if (g_stats_dumped) return;
 	g_stats_dumped = true;
+	release_spares();
 	std::string p = g_outdir + "/stats.json";
 	FILE* f = fopen(p.c_str(), "w");
 	if (!f) return;
@@ -137,6 +150,7 @@ static void dump_stats() {
 
 static void save_history() {
 	if (g_hist_saved) return;
+	release_spares();
 	g_hist_saved = true;
 	std::string p = g_outdir + "/fail.hist";
 	int fd = open(p.c_str(), O_WRONLY | O_CREAT | O_TRUNC, 0600);
@@ -158,16 +172,17 @@ static void save_history() {
 
 static void save_failure(const char* kind, const std::string& msg) {
 	// replay file: either the raw tape or a "SWEEP <label>" line
+	release_spares();
 	save_history();
 	std::string p = g_outdir + "/fail.tape";
 	if (g_in_sweep) {
 		std::string s = std::string("SWEEP ") + g_sweep_label + "\n";
-		write_file(p, s.data(), s.size());
+		raw_write_file(p, s.data(), s.size());
 	} else {
-		write_file(p, g_cur_data, g_cur_len);
+		raw_write_file(p, g_cur_data, g_cur_len);
 	}
 	std::string m = std::string(kind) + ": " + msg + "\n";
-	write_file(g_outdir + "/fail.msg", m.data(), m.size());
+	raw_write_file(g_outdir + "/fail.msg", m.data(), m.size());
 }
 
 static void death_cb() {
@@ -348,6 +363,12 @@ int main(int argc, char** argv) {
 	if (const char* s = getenv("VERIF_CASE_TIMEOUT")) g_case_timeout = atoi(s);
 	mkdir(g_outdir.c_str(), 0700);
 	signal(SIGALRM, on_alarm);
+	// A descriptor that some path of the library does not give back (a refused open, a refused slice) shows only after about a thousand such
+	// calls in one process.  Every harness process therefore runs with a small descriptor budget (default 160; no case of any harness holds more
+	// than a few dozen at once), so that a leak of one descriptor per refused call turns into real, reportable failures of later lawful calls
+	// within a few hundred cases (reported through the sequence replay of the driver, DESIGN.md 7.8/7.9).
+	for (int& fd : g_spare_fd) fd = open("/dev/null", O_RDONLY);
+	{ struct rlimit rl; if (getrlimit(RLIMIT_NOFILE, &rl) == 0) { rlim_t want = 160; if (const char* s = getenv("VERIF_NOFILE")) want = rlim_t(atoi(s)); if (want && want < rl.rlim_cur) { rl.rlim_cur = want; setrlimit(RLIMIT_NOFILE, &rl); } } }
 #ifndef VERIF_PLAIN
 	__sanitizer_set_death_callback(death_cb);
 #else
